@@ -35,7 +35,7 @@ META = {
                    "is not decided."
                    " Also: a census of every slot-table subscript (clamped range bounds / range facts / availability fact), window facts at the slot walk's head and in the milestone pre-pass, all-paths definition of the project end in the model builder, visited-set discipline for work lists that also grow, and a size bound on macro expansion."
                    " Round 3: divisor census (non-zero constant, or-default, repair, positivity fact, or the timing resolution which the parser must reject unless positive), raw index for the slot walk's run-away test, order of two pinned dates where a task is marked scheduled on them."
-                   " Round 4: size bound fixed before the passes, slot table known to exist where it is measured, numeric attributes never stored as text through a variable id, mixed allocation list (known finding), horizon estimate guarded against overflow.",
+                   " Round 4: size bound fixed before the passes, slot table known to exist where it is measured, numeric attributes never stored as text through a variable id, mixed allocation list (known finding), horizon estimate guarded against overflow. Round 8: each pinned date of the milestone pre-pass is itself compared with the project frame on every path to a scheduled mark.",
     "assumptions": ["the property tree (parent/children) is finite and acyclic", "for loops over finite containers terminate",
                     "attribute values are finite, acyclic nestings of lists / tuples / dicts"],
 }
